@@ -1257,6 +1257,7 @@ class Component(
                 # Emit signal that the template is about to be rendered
                 template_rendered.send(sender=template, template=template, context=context)
                 # Get the component's HTML
+                context._djc_component_template = template
                 html_content = template.render(context)
 
             # Add necessary HTML attributes to work with JS and CSS variables
@@ -1678,11 +1679,11 @@ def _prepare_template(
                 "manually patch the class."
             )
 
-        # Set `Template._djc_is_component_nested` based on whether we're currently INSIDE
-        # the `{% extends %}` tag.
-        # Part of fix for https://github.com/django-components/django-components/issues/508
-        # See django_monkeypatch.py
-        template._djc_is_component_nested = bool(context.render_context.get(BLOCK_CONTEXT_KEY))
+        # NOTE: The template must be rendered WITHOUT a fresh render-context layer (see django_monkeypatch.py,
+        # part of fix for https://github.com/django-components/django-components/issues/508). This is requested per
+        # render, through the Context that the component renders with (`Context._djc_component_template`), and NOT by
+        # flagging the Template object: that object may be the loader-cached instance which stock `{% include %}` /
+        # `{% extends %}` of the same file use too, and those must keep their isolated render context.
 
         with _maybe_bind_template(context, template):
             yield template
